@@ -250,6 +250,19 @@ def r164(db, ctx):
             if not f.dominates(a, b) or a == b:
                 probs.append('calls are not in the order select -> exclude -> prepare_pssm -> update_holdout -> include on every path')
                 break
+        # must-pass-through: once z has been excluded, no path reaches a return without passing include_sequence(z)
+        # (dominance of the later call by the earlier one does not exclude an early return between them)
+        seen_b, stack = set(), list(f.succs(ex0[0]))
+        while stack:
+            b_ = stack.pop()
+            if b_ in seen_b or b_ == inc[0][0] or f.blocks[b_]['cleanup']:
+                continue
+            seen_b.add(b_)
+            stack.extend(f.succs(b_))
+        esc = [e for e in f.exits() if e in seen_b]
+        if esc:
+            probs.append('a path returns after exclude_sequence(z) without passing include_sequence(z): the state then lacks the held-out sequence '
+                         'although active/starts still describe it as part of the alignment')
         z = norm(R.operand(ex0[1]['args'][1]))
         zs = [norm(R.operand(t['args'][1])) for _, t in (uh + inc + ex)]
         if any(x != z for x in zs) or not (z[0] == 'call' and z[1].endswith('select_holdout')):
@@ -379,6 +392,16 @@ def r166(db, ctx):
     ctx.floor('R16.6', n, 4, 'random draws')
 
 
+def r167(db, ctx):
+    from . import C09
+    common.shared_rule(db, ctx, C09.r97, 'R16.7', 'the reported background is Background::from_counts(&self.background_counts), and from_counts normalises every one of the K counts '
+                       '(shared with R9.7)', ['R9.7'])
+    f = db.fn(f'{S}::background')
+    e = norm(common.return_expr_single_path_allow(f)) if common.return_expr_single_path_allow(f) is not None else None
+    ok = e is not None and m(('call~', 'unwrap', (('call~', 'Background::from_counts', (('fld', ('p', 1), 'background_counts'),)),)), e) is not None
+    (ctx.ok if ok else ctx.fail)('R16.7', f, 'Sampler::background() = from_counts(&self.background_counts)', *([['R16.1-R16.3: background_counts is the maintained state']] if ok else [f'returns {X.show(e, 100) if e else None}']))
+
+
 def run(db, ctx):
     r161(db, ctx)
     r162(db, ctx)
@@ -386,3 +409,4 @@ def run(db, ctx):
     r164(db, ctx)
     r165(db, ctx)
     r166(db, ctx)
+    r167(db, ctx)
